@@ -77,8 +77,10 @@ func (s sortableByProperty) Less(i, j int) bool {
 }
 
 // SortedMapKeys returns the keys of a map in a deterministic order (Go's map
-// iteration order is random): numbers by value, strings lexically, anything
-// else by printed form.
+// iteration order is random). The order is total, so that it does not depend on
+// the order the keys arrive in: nil first, then numbers by value, then strings
+// lexically, then anything else by printed form; keys that still tie (1 and
+// 1.0, int8(3) and uint(3)) are ordered by their type.
 func SortedMapKeys(m reflect.Value) []reflect.Value {
 	keys := m.MapKeys()
 	sort.Sort(sortableKeys(keys))
@@ -97,15 +99,57 @@ func (s sortableKeys) Less(i, j int) bool {
 	if b.Kind() == reflect.Interface {
 		b = b.Elem()
 	}
-	if !a.IsValid() || !b.IsValid() {
-		return !a.IsValid() && b.IsValid()
+	ca, cb := keyClass(a), keyClass(b)
+	if ca != cb {
+		return ca < cb
 	}
-	if a.Kind() == reflect.String && b.Kind() == reflect.String {
-		return a.String() < b.String()
+	switch ca {
+	case keyNil:
+		return false
+	case keyNumber:
+		an, bn := isNaNKey(a), isNaNKey(b)
+		switch {
+		case an || bn:
+			if an != bn {
+				return an // NaN before the numbers
+			}
+		case Less(a.Interface(), b.Interface()):
+			return true
+		case Less(b.Interface(), a.Interface()):
+			return false
+		}
+	case keyString:
+		if a.String() != b.String() {
+			return a.String() < b.String()
+		}
+	default:
+		if sa, sb := fmt.Sprint(a.Interface()), fmt.Sprint(b.Interface()); sa != sb {
+			return sa < sb
+		}
 	}
-	ka, kb := a.Kind(), b.Kind()
-	if (isIntKind(ka) || isFloatKind(ka)) && (isIntKind(kb) || isFloatKind(kb)) {
-		return Less(a.Interface(), b.Interface())
+	return a.Type().String() < b.Type().String()
+}
+
+const (
+	keyNil = iota
+	keyNumber
+	keyString
+	keyOther
+)
+
+func keyClass(v reflect.Value) int {
+	switch {
+	case !v.IsValid():
+		return keyNil
+	case isIntKind(v.Kind()) || isFloatKind(v.Kind()):
+		return keyNumber
+	case v.Kind() == reflect.String:
+		return keyString
+	default:
+		return keyOther
 	}
-	return fmt.Sprint(a.Interface()) < fmt.Sprint(b.Interface())
+}
+
+func isNaNKey(v reflect.Value) bool {
+	return isFloatKind(v.Kind()) && v.Float() != v.Float()
 }
